@@ -1054,6 +1054,7 @@ func main() {
 				rtCase(g, o, scratch)
 			case 11:
 				jescCase(g, o)
+				chunkCase(g, o)
 			case 12:
 				diaCase(g, o, scratch)
 			case 13:
